@@ -56,6 +56,7 @@ func EnforcementPart(r *evid.Run) EnfTally {
 		"The others cycle through {services, liar-tip, liar-cp, bad-block, control, mixed, mixed-cp, liar-late, liar-batch}: chains of 100-400 blocks (at-tip filter-header path) or 1010-2200 with one block-header checkpoint at 1000 (checkpointed path), 1-3 honest peers plus, from the seed, peers without the CF / witness / both service bits, "+
 		"provable filter-header liars (omit-script / wrong-hash / unserved at a height on the chain; also admitted late, so that only the false previous filter header shows), a consistent filter-checkpoint liar (provable lie below a checkpoint: false checkpoint and matching cfheaders), a batch liar (true checkpoints, false cfheaders, alone at first), "+
 		"an invalid-block server (requested header, transactions altered: value / dropped tx / witness flip; the scenario then issues concurrent GetBlock calls), and honest-class peers: stale, slow, merely disconnecting; random first-connected peer; in 3/4 of the scenarios no peer serves block headers before all had their chance to connect (steering). "+
+		"A peer already seen banned pushes: on any later connection on which the client lets it complete a handshake it at once announces an unknown block (inv). "+
 		"Observed: IsBanned polled every ~4 ms (first sighting stamped with the event-log sequence), per-address connection records (open point, open/closed, events per connection), the ban store reopened after Stop. "+
 		"Oracle: (a) missing-service peer whose version the client read => store record NoCompactFilters and IsBanned; (b) liar whose lie was sent while the client could see the conflict (an honest peer answered the same request / honest checkpoints were known / the false previous filter header met the client's own true tip / its own true checkpoints) and the committed filter tip passed the height => InvalidFilterHeader/-Checkpoint, already in place when the initial sync completed if the lie was told before; checkpoint-only liar not banned after 3 rounds of conflict resolution; bad-block server that promptly answered a getdata => InvalidBlock; "+
 		"(c) no honest/stale/slow/disconnecting peer banned unless the log shows it left a request unanswered/late or dropped its own connection in a session with conflicts (then inconclusive); "+
